@@ -122,6 +122,17 @@ pub mod q16 {
     fn rnd(v: u128) -> u16 {
         r::quire128_to_posit(16, 1, v, 56, NAR) as u16
     }
+    pub fn split2<S: Src>(s: &mut S) -> Outcome {
+        let v = draw128(s);
+        crate::assume!(s, v != NAR);
+        let p1 = rnd(v);
+        let s2 = v.wrapping_sub(posit_fx128(16, 1, p1 as u32, 56));
+        crate::assume!(s, s2 != NAR);
+        let p2 = rnd(s2);
+        let (a1, a2) = Q16E1::from_bits(v).into_two_posits();
+        cover!(p2 != 0 && p2 >> 15 == 1);
+        Outcome::eq(a1.to_bits() as u64, p1 as u64).and(Outcome::eq(a2.to_bits() as u64, p2 as u64))
+    }
     pub fn split<S: Src>(s: &mut S) -> Outcome {
         let v = draw128(s);
         crate::assume!(s, v != NAR);
@@ -132,12 +143,9 @@ pub mod q16 {
         let s3 = s2.wrapping_sub(posit_fx128(16, 1, p2 as u32, 56));
         crate::assume!(s, s3 != NAR);
         let p3 = rnd(s3);
-        let (a1, a2) = Q16E1::from_bits(v).into_two_posits();
         let (b1, b2, b3) = Q16E1::from_bits(v).into_three_posits();
         cover!(p2 != 0 && p3 != 0);
-        Outcome::eq(a1.to_bits() as u64, p1 as u64)
-            .and(Outcome::eq(a2.to_bits() as u64, p2 as u64))
-            .and(Outcome::eq(b1.to_bits() as u64, p1 as u64))
+        Outcome::eq(b1.to_bits() as u64, p1 as u64)
             .and(Outcome::eq(b2.to_bits() as u64, p2 as u64))
             .and(Outcome::eq(b3.to_bits() as u64, p3 as u64))
     }
